@@ -41,6 +41,8 @@ def generate(ctx):
         if left == "cfg":
             c["g"] = cfglib.rand_cfg(rng, max_vars=3, max_prods=5, max_body=3)
             terms = c["g"]["terms"]
+            if rng.random() < 0.25:      # the user built another grammar from the same Variable objects and intersected it first
+                c["shared_warm"] = rng.randrange(10**6)
         else:
             p = pdalib.rand_pda(rng, max_states=2, max_stack=2, max_trans=4 if ctx.tier == "quick" else 5,
                                 profile="falike" if rng.random() < 0.5 else None)
@@ -74,7 +76,23 @@ def _other(case):
 
 def impl(case):
     other = _other(case)
-    left = cfglib.build_cfg(case["g"]) if case["op"] == "cfg_inter" else pdalib.build_pda(case["p"])
+    if case["op"] == "cfg_inter" and case.get("shared_warm") is not None and case["rkind"] != "other":
+        import random
+        pool = {}
+        g = case["g"]
+        r2 = random.Random(case["shared_warm"])
+        drop = r2.choice(g["vars"]) if len(g["vars"]) > 1 else None
+        keepv = [v for v in g["vars"] if drop is None or cfglib.vkey(v) != cfglib.vkey(drop)] + ["W9"]
+        wprods = [[h, b] for h, b in g["prods"] if cfglib.vkey(h) != cfglib.vkey(drop) and all(k == "T" or cfglib.vkey(v) != cfglib.vkey(drop) for k, v in b)]
+        wprods.append(["W9", [["V", keepv[0]]]])
+        warm = cfglib.build_cfg({"vars": keepv, "terms": g["terms"], "start": "W9", "prods": wprods}, pool=pool)
+        try:
+            warm.intersection(other)
+        except Exception:     # the discarded warm-up decides nothing
+            pass
+        left = cfglib.build_cfg(g, pool=pool)
+    else:
+        left = cfglib.build_cfg(case["g"]) if case["op"] == "cfg_inter" else pdalib.build_pda(case["p"])
     try:
         res = (left & other) if case.get("operator") else left.intersection(other)
     except NotImplementedError:
